@@ -262,6 +262,8 @@ where
             .iter()
             .cloned()
             .collect::<Vec<Rc<dyn Constraint<U, E>>>>();
+        #[cfg(terohuttunen_proto_vulcan_verif)]
+        crate::verif::permute(&mut constraints);
 
         // Each constraint is first removed from the store and then run against the state.
         // If the constraint does not want to be removed from the store, it adds itself
